@@ -152,6 +152,26 @@ pub(crate) fn lenient_quotient_truncation() -> bool {
     LENIENT_QUOTIENT.load(Ordering::SeqCst)
 }
 
+static AUX_BALANCE: core::sync::atomic::AtomicU64 = core::sync::atomic::AtomicU64::new(u64::MAX);
+
+/// Prover knob: `Some((helper column index within a lookup, row))` makes `lookup_helper_columns`
+/// subtract the lookup's total defect `sum_rows (sum_k h_k - frequencies / (challenge + table))`
+/// from that helper cell BEFORE the running sum `Z` is computed, so that `Z` closes for any trace;
+/// only the constraint that defines helper column `k` on that row is then violated. `None` =
+/// honest prover.
+pub fn set_aux_balance(at: Option<(usize, usize)>) {
+    let v = match at {
+        Some((h, row)) => ((h as u64) << 32) | (row as u64 & 0xffff_ffff),
+        None => u64::MAX,
+    };
+    AUX_BALANCE.store(v, Ordering::SeqCst);
+}
+
+pub(crate) fn aux_balance() -> Option<(usize, usize)> {
+    let v = AUX_BALANCE.load(Ordering::SeqCst);
+    (v != u64::MAX).then_some(((v >> 32) as usize, (v & 0xffff_ffff) as usize))
+}
+
 #[cfg(feature = "std")]
 static AUX_TAMPER: std::sync::Mutex<Vec<(usize, usize, u64)>> = std::sync::Mutex::new(Vec::new());
 
